@@ -52,6 +52,13 @@ def prepare_scratch(repo, scratch):
                    check=True)
     hdir = os.path.join(scratch, "harness")
     shutil.copytree(os.path.join(VERIF, "kani"), hdir)
+    # mechanical extractions (closure bodies that cannot be called as functions), verbatim, from the ORIGINAL text
+    for ex in props.EXTRACTS:
+        body, a, b = inject.extract_closure_body(os.path.join(repo, ex["file"]), ex["marker"])
+        with open(os.path.join(hdir, ex["out"]), "w") as f:
+            f.write("// extracted mechanically and verbatim from %s lines %d-%d (the body of the closure after `%s`)\n"
+                    % (ex["file"], a, b, ex["marker"].strip()))
+            f.write(ex["header"] + "\n" + "\n".join(body) + "\n}\n")
     injs = props.injections()
     added = inject.apply_injections(src, injs, hdir)
     files = sorted({i["file"] for i in injs})
@@ -108,7 +115,7 @@ def run_limited(cmd, cwd, timeout, mem_cap, env=ENV):
             "peak_rss": state["peak"]}
 
 
-CHECK_RE = re.compile(r"^Check (\d+): (\S+)\n\s+- Status: (\S+)\n\s+- Description: \"(.*)\"(?:\n\s+- Location: (.*))?",
+CHECK_RE = re.compile(r"^Check (\d+): (.+)\n\s+- Status: (\S+)\n\s+- Description: \"(.*)\"(?:\n\s+- Location: (.*))?",
                       re.M)
 
 
@@ -519,7 +526,7 @@ def main():
     ap.add_argument("--repo", default="/repo")
     ap.add_argument("--only", default=None)
     ap.add_argument("--keep", action="store_true")
-    ap.add_argument("--jobs", type=int, default=12)
+    ap.add_argument("--jobs", type=int, default=5)
     a = ap.parse_args()
     if a.what == "list":
         for pid, P in props.PROPS.items():
